@@ -23,7 +23,7 @@ CLASSES = {
     "C04": KERNEL | ORDER | {"cache-not-current", "resume-version", "frame-mistranslated", "frame-ignored", "drop-not-full", "drop-unknown",
                              "watch-version-unknown", "ctl-events-differ", "stopped-without-cause", "watch-not-reestablished"},
     "C15": KERNEL | {"read-not-linearizable", "read-error", "returned-slice-not-owned", "list-not-snapshot", "data-race"},
-    "C13": {"lists-overlap", "list-too-early", "relisting-stopped", "close-hangs", "shutdown-timeout", "goroutine-leak"},
+    "C13": {"lists-overlap", "list-too-early", "list-before-consumed-plus-period", "relisting-stopped", "close-hangs", "shutdown-timeout", "goroutine-leak"},
     "C14": {"list-failure-not-fatal", "stopped-without-cause", "failure-not-reported", "ready-after-failed-first-list",
             "deliberate-close-reports-failure", "shutdown-timeout", "close-hangs"},
     "C05": ORDER | {"cache-older-than-event", "ctl-events-differ"},
@@ -39,7 +39,7 @@ CLASSES = {
     "C12": {"goroutine-leak", "shutdown-timeout", "close-hangs", "call-blocks-after-done", "call-fails-after-done", "closed-before-drained", "api-call-blocks",
             "racing-call-zombie"},
     "C16": {"callbacks-overlap", "initialize-not-first-or-twice", "callback-before-ready", "callback-after-done", "initialize-not-cache-content",
-            "callback-before-initialize", "callback-not-next-event", "callback-of-unknown-monitor", "stuck-at-quiescence"},
+            "callback-before-initialize", "callback-not-next-event", "callback-of-unknown-monitor", "stuck-at-quiescence", "monitor-not-initialized"},
 }
 # (variant, share of the scenario budget)
 VARIANTS = {
